@@ -486,7 +486,7 @@ func checkC16(c *Check, p *Program) {
 			// the channel argument: the receiver's channel-typed parameter (the last one when there are several)
 			ch := g.Common().Args[len(g.Common().Args)-1]
 			for i, prm := range recv.Params {
-				if _, isCh := prm.Type().Underlying().(*types.Chan); isCh && i < len(g.Common().Args) {
+				if cht, isCh := prm.Type().Underlying().(*types.Chan); isCh && i < len(g.Common().Args) && isNamed(cht.Elem(), knxnetPath, "Service") {
 					ch = g.Common().Args[i]
 				}
 			}
@@ -565,6 +565,20 @@ func checkC16(c *Check, p *Program) {
 		}
 		minC, _ := pathCount(fn.Blocks[0], isConnClose, nil)
 		c.Decide(okC && minC >= 1, "C16.T4", FuncName(fn)+" closes the connection", p.Pos(fn.Pos()), "conn.Close() on every path", "Close does not fully close the connection on every path (the receiver's blocking read does not fail, Inbound stays open)")
+		// Close waits for nobody: the receiver may be parked in its hand-off on the unbuffered inbound channel with no
+		// reader left (the caller stopped reading before it closes), so waiting for the receiver waits for ever
+		blocks := ""
+		for f := range p.CallGraph().reachableSync(fn) {
+			if !p.InModule(f) {
+				continue
+			}
+			instrsOf(f, func(in ssa.Instruction) {
+				if d := blockingDesc(in); d != "" {
+					blocks = d + " at " + p.InstrPos(in)
+				}
+			})
+		}
+		c.Decide(blocks == "", "C16.T4", FuncName(fn)+" waits for nobody", p.Pos(fn.Pos()), "no channel operation, lock or wait in Close", "Close blocks on a "+blocks+": with the receiver parked in its hand-off and nobody reading Inbound any more, Close never returns")
 	}
 
 	// ---- T5 advertised endpoint
